@@ -307,7 +307,7 @@ def c04_verdict(api, run):
                 unfinished.append(sand(snot(truthy(m.p["forever"])), notdone))
             prove(api, sor(*unfinished) if unfinished else False,
                   "C04: %s reports a timeout although all its non-forever jobs finished" % s, run)
-            if not why.startswith("TIMED OUT"):
+            if "tim" not in why.lower():
                 fail(api, "C04: why() == %r after a timeout of %s" % (why, s), run)
             if e.kind == "run_exc" and not isinstance(e.x, TimeoutError):
                 fail(api, "C04: critical %s timed out but raised %r, not TimeoutError" % (s, e.x), run)
@@ -321,7 +321,7 @@ def c04_verdict(api, run):
                     culprits.append((m, x))
             prove(api, sor(*[truthy(m.p["crit"]) for m, _ in culprits]) if culprits else False,
                   "C04: %s reports a critical failure but none of its critical jobs raised" % s, run)
-            if "CRITICAL" not in why:
+            if "crit" not in why.lower():
                 fail(api, "C04: why() == %r after a critical failure of %s" % (why, s), run)
             if e.kind == "run_exc":
                 same = [truthy(m.p["crit"]) for m, x in culprits if x is e.x]
